@@ -157,3 +157,21 @@ def argval(e, i):
 
 def argstr(e, i):
     return S.fstr(argval(e, i))
+
+
+def cache_foundation(ctx):
+    """Every property observed through `ScannerBuilder::build()` silently relies on the cache handing out the
+    compilation of exactly the requested configuration (C13.a-d,f): emit those obligations too."""
+    from . import sharing
+    sharing.analyze(ctx, {"C13.a", "C13.b", "C13.c", "C13.d", "C13.f"})
+
+
+def language_foundation(ctx):
+    """Side conditions of the regex->automaton pipeline (C02.a-g, C03.a-h) for properties whose statement
+    presupposes that the automaton recognises the pattern languages."""
+    from . import nfa_rules, dispatch, closure_rules, minimizer_rules, sharing
+    nfa_rules.analyze(ctx, {"C02.a", "C02.b", "C02.g"})
+    dispatch.analyze(ctx, {"C02.c"})
+    closure_rules.analyze(ctx, {"C02.d", "C02.e"})
+    sharing.analyze(ctx, {"C02.f"})
+    minimizer_rules.analyze(ctx, {"C03.a", "C03.b", "C03.c", "C03.d", "C03.e", "C03.f", "C03.g", "C03.h"})
